@@ -12,10 +12,29 @@
       - ProgressStyle::format_state walking the parts (style.rs:234-396) and
         push_line (style.rs:399-425) for styles WITHOUT a wide element
         ([render_parts]; the expansion of one placeholder is a parameter);
-      - TabExpandedString::expanded (state.rs:378-390) = [expand_tabs];
+      - TabExpandedString::expanded (state.rs:383-395) = [expand_tabs];
       - for execution only: PaddedStringDisplay::fmt (style.rs:734-769) restricted
         to printable-ASCII values ([padded_ascii]) and console's StyledObject
         (prefix ++ text ++ ESC[0m, prefix supplied by the harness per style string).
+
+    Panic outcome (C10 clause "never panic"): every operation in the call tree of
+    ProgressStyle::with_template / ProgressStyle::template that is partial in Rust is an
+    [option]-valued function here, and the way the code consumes its failure is explicit:
+      - style.rs:600 `buf.parse::<u16>()` = [parse_u16 : option]; consumed by
+        `.map_err(..)?` (:601) = the [PErr] branch of [phase2]/[phase2_full]; the pre-8070567
+        `.unwrap()` is the policy [WUnwrap] of [phase2_full] (kept only to show that the panic
+        outcome is inhabited: [C10_d2_panicked_before_fix]);
+      - style.rs:552,565,598,607,613 `parts.last_mut()` consumed by `if let Some(Placeholder
+        {..})` = [upd_last] / `match parts` (no failure branch in the code, none here);
+      - style.rs:608,614 `Style::from_dotted_str(&buf)` -> console-0.15.11 src/utils.rs:226
+        `on_c[3..]` (str index: panics unless 3 <= len and byte 3 is a char boundary) guarded
+        by `on_c.starts_with("on_")` (:225) = [str_from 3] under [starts_with ON_PREFIX],
+        failure = [PPanic SiteStyleOnSlice] / [PPanic SiteAltOnSlice].
+    There is no other unwrap/expect/index/slice/arithmetic/cast in from_str_with_tab_width
+    (the harness re-counts them in the source on every run, c10.rs [source_inventory]).
+    [parse_full] is the three-outcome parser; [parse] (two outcomes, used by C14's Builder.v)
+    is the same machine with the panic branches erased; C10_total proves
+    [parse_full s = PRes (parse s)] for every s.
 
     Strings are [list N] of Unicode scalar values.  [p_parts] is kept in REVERSE
     order (Vec::push = cons, Vec::last_mut = head); [parse] reverses at the end.
@@ -81,7 +100,7 @@ Definition upd_last (f : ph -> ph) (parts : list part) : list part :=
 (** ** one loop iteration *)
 Record pst := mkpst { p_state : tstate; p_parts : list part; p_buf : list N }.
 
-(* style.rs:511-536, the whitespace back-tracking arm.  [pre] is the text taken out of
+(* style.rs:511-535, the whitespace back-tracking arm.  [pre] is the text taken out of
    buf in MaybeOpen (empty in Key), [b] what buf holds when `new.push_str(&buf)` runs. *)
 Definition backtrack (pre b : list N) (c : N) (parts : list part) : list part :=
   let new := pre ++ [123] ++ b in
@@ -104,41 +123,41 @@ Definition phase1 (st : tstate) (c : N) (parts : list part) (buf : list N)
       if c =? 125 then Some (SLiteral, None, parts, buf) else None         (* 509 *)
   | SMaybeOpen =>
       if c =? 123 then Some (SLiteral, Some 123, parts, buf)               (* 510 *)
-      else if is_ascii_ws c then                                           (* 511-536 *)
+      else if is_ascii_ws c then                                           (* 511-535 *)
         Some (SLiteral, None, backtrack buf [] c parts, [])
-      else if negb (c =? 125) && negb (c =? 58) then Some (SKey, Some c, parts, buf)  (* 537 *)
+      else if negb (c =? 125) && negb (c =? 58) then Some (SKey, Some c, parts, buf)  (* 536 *)
       else None
   | SKey =>
-      if is_ascii_ws c then                                                (* 511-536 *)
+      if is_ascii_ws c then                                                (* 511-535 *)
         Some (SLiteral, None, backtrack [] buf c parts, [])
-      else if negb (c =? 125) && negb (c =? 58) then Some (SKey, Some c, parts, buf)  (* 538 *)
-      else if c =? 58 then Some (SAlign, None, parts, buf)                 (* 539 *)
-      else Some (SLiteral, None, parts, buf)                               (* 540: c = '}' *)
-      (* the arm `(Key, '!') if !buf.is_empty()` (541-551) is shadowed by line 538
+      else if negb (c =? 125) && negb (c =? 58) then Some (SKey, Some c, parts, buf)  (* 537 *)
+      else if c =? 58 then Some (SAlign, None, parts, buf)                 (* 538 *)
+      else Some (SLiteral, None, parts, buf)                               (* 539: c = '}' *)
+      (* the arm `(Key, '!') if !buf.is_empty()` (540-550) is shadowed by line 537
          and can never be taken *)
   | SAlign =>
-      if (c =? 60) || (c =? 94) || (c =? 62) then                          (* 552-563 *)
+      if (c =? 60) || (c =? 94) || (c =? 62) then                          (* 551-562 *)
         Some (SWidth, None,
               upd_last (set_align (if c =? 60 then ALeft else if c =? 94 then ACenter else ARight)) parts,
               buf)
-      else if is_digit c then Some (SWidth, Some c, parts, buf)            (* 564 *)
-      else if c =? 33 then Some (SWidth, None, upd_last set_trunc parts, buf)  (* 565-570 *)
-      else if c =? 46 then Some (SFirstStyle, None, parts, buf)            (* 571 *)
-      else if c =? 125 then Some (SLiteral, None, parts, buf)              (* 572 *)
+      else if is_digit c then Some (SWidth, Some c, parts, buf)            (* 563 *)
+      else if c =? 33 then Some (SWidth, None, upd_last set_trunc parts, buf)  (* 564-569 *)
+      else if c =? 46 then Some (SFirstStyle, None, parts, buf)            (* 570 *)
+      else if c =? 125 then Some (SLiteral, None, parts, buf)              (* 571 *)
       else None
   | SWidth =>
-      if c =? 33 then Some (SWidth, None, upd_last set_trunc parts, buf)   (* 565-570 *)
-      else if is_digit c then Some (SWidth, Some c, parts, buf)            (* 573 *)
-      else if c =? 46 then Some (SFirstStyle, None, parts, buf)            (* 574 *)
-      else if c =? 125 then Some (SLiteral, None, parts, buf)              (* 575 *)
+      if c =? 33 then Some (SWidth, None, upd_last set_trunc parts, buf)   (* 564-569 *)
+      else if is_digit c then Some (SWidth, Some c, parts, buf)            (* 572 *)
+      else if c =? 46 then Some (SFirstStyle, None, parts, buf)            (* 573 *)
+      else if c =? 125 then Some (SLiteral, None, parts, buf)              (* 574 *)
       else None
   | SFirstStyle =>
-      if c =? 47 then Some (SAltStyle, None, parts, buf)                   (* 576 *)
-      else if c =? 125 then Some (SLiteral, None, parts, buf)              (* 577 *)
-      else Some (SFirstStyle, Some c, parts, buf)                          (* 578 *)
+      if c =? 47 then Some (SAltStyle, None, parts, buf)                   (* 575 *)
+      else if c =? 125 then Some (SLiteral, None, parts, buf)              (* 576 *)
+      else Some (SFirstStyle, Some c, parts, buf)                          (* 577 *)
   | SAltStyle =>
-      if c =? 125 then Some (SLiteral, None, parts, buf)                   (* 579 *)
-      else Some (SAltStyle, Some c, parts, buf)                            (* 580 *)
+      if c =? 125 then Some (SLiteral, None, parts, buf)                   (* 578 *)
+      else Some (SAltStyle, Some c, parts, buf)                            (* 579 *)
   end.
 
 (* phase 2 (style.rs:583-619): None = the `?` at line 601 (width does not fit u16) *)
@@ -200,16 +219,162 @@ Definition tfinish (s : pst) : list part :=
        | _ => p_parts s
        end).
 
-(** Result of ProgressStyle::with_template / ProgressStyle::template: Ok, or
-    Err(TemplateError{state,next}).  There is no third outcome: the function contains no
-    unwrap/expect/index/slice/arithmetic that can fail (the former `unwrap` is the `?` of
-    phase 2). *)
+(** Result of ProgressStyle::with_template / ProgressStyle::template with the panic branches
+    erased: Ok, or Err(TemplateError{state,next}).  This two-outcome view is what C14's
+    Builder.v consumes; the three-outcome parser is [parse_full] below, and
+    [C10_total : parse_full s = PRes (parse s)] is what entitles anyone to use this one. *)
 Inductive presult := POk (ps : list part) | PErr (st : tstate) (c : N).
 
 Definition parse (s : list N) : presult :=
   match trun pinit0 s with
   | SOk f => POk (tfinish f)
   | SErr st c => PErr st c
+  end.
+
+(** ** the panic outcome: partial operations made explicit *)
+
+(* bytes of the UTF-8 encoding of a scalar value (char::len_utf8) *)
+Definition utf8_len (c : N) : N :=
+  if c <? 128 then 1 else if c <? 2048 then 2 else if c <? 65536 then 3 else 4.
+
+(* `&s[n..]` on a str, n in BYTES: Some rest, or None = the index panics ("byte index n is out
+   of bounds" when the string ends first, "is not a char boundary" when n falls inside the
+   encoding of a character) *)
+Fixpoint str_from (n : N) (s : list N) {struct s} : option (list N) :=
+  if n =? 0 then Some s
+  else match s with
+       | [] => None
+       | c :: r => if utf8_len c <=? n then str_from (n - utf8_len c) r else None
+       end.
+
+(* str::starts_with(&str): byte-wise prefix test = scalar-wise prefix test (UTF-8 is
+   prefix-free and the pattern is a whole number of characters) *)
+Fixpoint starts_with (pat s : list N) : bool :=
+  match pat, s with
+  | [], _ => true
+  | p :: pr, c :: r => (p =? c) && starts_with pr r
+  | _ :: _, [] => false
+  end.
+
+(* str::split(d): always at least one piece *)
+Fixpoint split_on (d : N) (s : list N) : list (list N) :=
+  match s with
+  | [] => [[]]
+  | c :: r =>
+      if c =? d then [] :: split_on d r
+      else match split_on d r with
+           | l :: ls => (c :: l) :: ls
+           | [] => [[c]]
+           end
+  end.
+
+Definition ON_PREFIX : list N := [111; 110; 95].      (* "on_" *)
+
+(* console::Style::from_dotted_str (console-0.15.11 src/utils.rs:195-242), panic behaviour
+   only (the style value itself is computed by the console crate in the harness): for each
+   piece of s.split('.') (:197), the arm `on_c if on_c.starts_with("on_")` (:225) evaluates
+   `on_c[3..]` (:226).  The 26 literal arms in front of it (:199-224) neither slice nor index;
+   leaving them out only makes MORE pieces reach the slice.  `.parse::<u8>()` (:226, :233) is
+   consumed by `if let Ok(n)`.  true = the call panics. *)
+Definition dotted_piece_panics (piece : list N) : bool :=
+  starts_with ON_PREFIX piece &&
+  match str_from 3 piece with Some _ => false | None => true end.
+Definition dotted_str_panics (s : list N) : bool :=
+  existsb dotted_piece_panics (split_on 46 s).
+
+Inductive psite :=
+| SiteWidthUnwrap      (* style.rs:600 `buf.parse::<u16>().unwrap()` - the code BEFORE fix 8070567 *)
+| SiteStyleOnSlice     (* console utils.rs:226 reached from style.rs:608 (style) *)
+| SiteAltOnSlice.      (* console utils.rs:226 reached from style.rs:614 (alt_style) *)
+
+(* how the Err of `buf.parse::<u16>()` (style.rs:600) is consumed *)
+Inductive width_policy :=
+| WMapErr      (* HEAD: `.map_err(|_| TemplateError { next: c, state })?` (:601) *)
+| WUnwrap.     (* before 8070567: `.unwrap()`; NOT the current code *)
+
+Inductive p2res := P2Ok (parts : list part) (buf : list N) | P2Err | P2Panic (site : psite).
+
+(* phase 2 (style.rs:583-619) with every partial operation and its consumer explicit *)
+Definition phase2_full (pol : width_policy) (old new : tstate) (parts : list part) (buf : list N)
+  : p2res :=
+  if nonempty buf then
+    match old, new with
+    | SMaybeOpen, SKey => P2Ok (PLit buf :: parts) []                          (* 584-586 *)
+    | SKey, (SAlign | SLiteral) =>                                             (* 587-596 *)
+        P2Ok (PPh (mkph buf ALeft None false None None) :: parts) []
+    | SWidth, (SFirstStyle | SLiteral) =>                                      (* 597-605 *)
+        match parts with                                                       (* 598 last_mut *)
+        | PPh p :: r =>
+            match parse_u16 buf with                                           (* 600 *)
+            | Some w => P2Ok (PPh (set_width w p) :: r) []
+            | None => match pol with                                           (* 601 *)
+                      | WMapErr => P2Err
+                      | WUnwrap => P2Panic SiteWidthUnwrap
+                      end
+            end
+        | _ => P2Ok parts buf
+        end
+    | SFirstStyle, (SAltStyle | SLiteral) =>                                   (* 606-611 *)
+        match parts with                                                       (* 607 last_mut *)
+        | PPh p :: r =>
+            if dotted_str_panics buf then P2Panic SiteStyleOnSlice             (* 608 *)
+            else P2Ok (PPh (set_style buf p) :: r) []
+        | _ => P2Ok parts buf
+        end
+    | SAltStyle, SLiteral =>                                                   (* 612-617 *)
+        match parts with                                                       (* 613 last_mut *)
+        | PPh p :: r =>
+            if dotted_str_panics buf then P2Panic SiteAltOnSlice               (* 614 *)
+            else P2Ok (PPh (set_alt buf p) :: r) []
+        | _ => P2Ok parts buf
+        end
+    | _, _ => P2Ok parts buf                                                   (* 618 *)
+    end
+  else P2Ok parts buf.
+
+Inductive step_out := TOk (s : pst) | TErr (st : tstate) (c : N) | TPanic (site : psite).
+
+(* phase 1 has no partial operation: chars(), push, push_str, mem::take, clear, Vec::push,
+   is_ascii_whitespace, and `parts.last_mut()` under `if let` ([upd_last]) *)
+Definition tstep_full (pol : width_policy) (s : pst) (c : N) : step_out :=
+  match phase1 (p_state s) c (p_parts s) (p_buf s) with
+  | None => TErr (p_state s) c                                                 (* 580 *)
+  | Some (new, push, parts1, buf1) =>
+      match phase2_full pol (p_state s) new parts1 buf1 with
+      | P2Panic site => TPanic site
+      | P2Err => TErr (p_state s) c
+      | P2Ok parts2 buf2 =>
+          TOk (mkpst new parts2 (match push with Some x => buf2 ++ [x] | None => buf2 end))
+      end
+  end.
+
+Fixpoint trun_full (pol : width_policy) (s : pst) (cs : list N) : step_out :=
+  match cs with
+  | [] => TOk s
+  | c :: r => match tstep_full pol s c with TOk s' => trun_full pol s' r | e => e end
+  end.
+
+(** The three outcomes of ProgressStyle::with_template(s) / ProgressStyle::template(s). *)
+Inductive pout := PRes (r : presult) | PPanic (site : psite).
+
+Definition parse_gen (pol : width_policy) (s : list N) : pout :=
+  match trun_full pol pinit0 s with
+  | TOk f => PRes (POk (tfinish f))        (* 627-634 *)
+  | TErr st c => PRes (PErr st c)
+  | TPanic site => PPanic site
+  end.
+
+(* the current code *)
+Definition parse_full : list N -> pout := parse_gen WMapErr.
+
+(** Where a TemplateError can arise: (state, character) pairs; used by C10_err_sites. *)
+Definition err_site (st : tstate) (c : N) : bool :=
+  match st with
+  | SDoubleClose => negb (c =? 125)
+  | SMaybeOpen => (c =? 125) || (c =? 58)
+  | SAlign => negb ((c =? 60) || (c =? 94) || (c =? 62) || is_digit c || (c =? 33) || (c =? 46) || (c =? 125))
+  | SWidth => negb ((c =? 33) || is_digit c)
+  | _ => false
   end.
 
 (** ** rendering (format_state without wide elements) *)
@@ -362,6 +527,29 @@ Section Spec.
     rfinish (fold_left sstep t ([], [])).
 End Spec.
 
+(** ** vocabulary of the line-structure statements (C10_one_line_per_template_line,
+    C10_newline_ends_line) *)
+(* the items that end a template line *)
+Definition is_sep (i : item) : bool :=
+  match i with INewline => true | IBraceWs c => c =? 10 | _ => false end.
+Definition no_sep (t : list item) : bool := forallb (fun i => negb (is_sep i)) t.
+
+Section Text.
+  Variable expand : ph -> list N.
+  Variable tw : N.
+  (* the text of an item that does not end a line *)
+  Definition item_text (i : item) : list N :=
+    match i with
+    | ILit s => expand_tabs tw s
+    | IEscOpen => [123]
+    | IEscClose => [125]
+    | IBraceWs c => expand_tabs tw [123; c]
+    | INewline => []
+    | IPh k f => expand (ph_of k f)
+    end.
+  Definition text (t : list item) : list N := flat_map item_text t.
+End Text.
+
 (** ** executable placeholder expansion used by the correspondence *)
 Fixpoint assoc (k : list N) (l : list (list N * list N)) : option (list N) :=
   match l with
@@ -414,31 +602,77 @@ Definition builtin_keys : list (list N) := map str_codes FORMAT_KEYS.
 Definition key_bar : list N := [98; 97; 114].
 Definition is_builtin (k : list N) : bool := existsb (list_eqb N.eqb k) builtin_keys.
 
-(* What a placeholder writes (style.rs:256-385) when every key of the template that the
-   crate knows is overridden through with_key (tracker text = [env key]), unknown keys write
-   nothing, and – the one built-in kept, to observe alt_style – `{bar}` of a bar at
-   fraction 0 with the default progress characters: width.unwrap_or(20) times U+2591 wrapped
-   in alt_style (format_bar, style.rs:191-232), which is exactly `width` columns wide. *)
-Definition expand_exec (env styles : list (list N * list N)) (p : ph) : list N :=
-  match assoc (ph_key p) env with
-  | Some v =>
-      styled styles (ph_style p)
-        (match ph_width p with
-         | Some w => padded_ascii v w (ph_align p) (ph_trunc p)
-         | None => v
-         end)
+(** The Placeholder arm of format_state (style.rs:248-385) with the scratch String `buf`
+    THREADED through the walk over the parts, as in the code: `buf` is declared once (:241),
+    cleared at the top of the arm (:256), filled by the key dispatch (:257-362) and read by the
+    padding/style tail (:364-384).  Without a wide element push_line (:399-425) does not touch
+    it (`wide` is None, :408-411).
+    Executable instance used by the tie: every key of the template that the crate knows is
+    overridden through with_key (tracker text = [env key]), and - the one built-in kept, to
+    observe alt_style - `{bar}` of a bar at fraction 0 with the default progress characters:
+    width.unwrap_or(20) times U+2591 wrapped in alt_style (format_bar, style.rs:191-232), which
+    is exactly `width` columns wide, so that PaddedStringDisplay leaves it as it is. *)
+Definition str_clear (_ : list N) : list N := [].               (* String::clear *)
+
+Definition is_bar0 (env : list (list N * list N)) (k : list N) : bool :=
+  match assoc k env with Some _ => false | None => list_eqb N.eqb k key_bar end.
+
+(* style.rs:256-362: the contents of `buf` after the dispatch on the key; [old] is what the
+   previous placeholder (or nothing) left in it *)
+Definition key_dispatch (env styles : list (list N * list N)) (p : ph) (old : list N) : list N :=
+  let buf := str_clear old in                                   (* :256 buf.clear() *)
+  match assoc (ph_key p) env with                               (* :257 format_map.get(key) *)
+  | Some v => buf ++ v                                          (* :258 tracker.write(.., buf) *)
   | None =>
-      if list_eqb N.eqb (ph_key p) key_bar then
-        styled styles (ph_style p)
-          (styled styles (ph_alt p)
-             (nrepeat 9617 (match ph_width p with Some w => w | None => DEFAULT_BAR_WIDTH end)))
-      else
-        styled styles (ph_style p)
-          (match ph_width p with
-           | Some w => padded_ascii [] w (ph_align p) (ph_trunc p)
-           | None => []
-           end)
+      if list_eqb N.eqb (ph_key p) key_bar then                 (* :265-274 "bar" *)
+        buf ++ styled styles (ph_alt p)
+                 (nrepeat 9617 (match ph_width p with Some w => w | None => DEFAULT_BAR_WIDTH end))
+      else buf      (* :361 `_ => ()`; the other 27 arms (FORMAT_KEYS) are excluded by
+                       [keys_covered] in the tie and by [is_builtin k = false] in the theorems *)
   end.
+
+(* style.rs:364-384: what is appended to `cur` *)
+Definition ph_emit (env styles : list (list N * list N)) (p : ph) (buf : list N) : list N :=
+  styled styles (ph_style p)
+    (match ph_width p with
+     | Some w => if is_bar0 env (ph_key p) then buf
+                 else padded_ascii buf w (ph_align p) (ph_trunc p)
+     | None => buf
+     end).
+
+(* one placeholder seen in isolation (scratch buffer empty beforehand) *)
+Definition expand_exec (env styles : list (list N * list N)) (p : ph) : list N :=
+  ph_emit env styles p (key_dispatch env styles p []).
+
+Section Format.
+  Variables env styles : list (list N * list N).
+  Variable tw : N.
+
+  (* (lines, cur) and the scratch buf *)
+  Definition fstate := (racc * list N)%type.
+
+  Definition fstep (a : fstate) (pt : part) : fstate :=
+    match pt with
+    | PLit s => (add_text (fst a) (expand_tabs tw s), snd a)                  (* :386 *)
+    | PPh q =>                                                                (* :248-385 *)
+        let buf := key_dispatch env styles q (snd a) in
+        (add_text (fst a) (ph_emit env styles q buf), buf)
+    | PNewLine => (push_line (fst a), snd a)                                  (* :387-389 *)
+    end.
+
+  (* ProgressStyle::format_state for a style without a wide element *)
+  Definition fmt_render (ps : list part) : list (list N) :=
+    rfinish (fst (fold_left fstep ps (([], []), []))).                        (* :240-241, 393-395 *)
+End Format.
+
+(* what an unknown key stands for: the padding its width asks for, nothing otherwise *)
+Definition pad_items (f : option fmtspec) : list item :=
+  match f with
+  | Some f => match f_width f with [] => [] | ds => [ILit (nrepeat 32 (digits_value ds))] end
+  | None => []
+  end.
+Definition unstyled (f : option fmtspec) : bool :=
+  match f with Some f => match f_style f with None => true | Some _ => false end | None => true end.
 
 (** ** correspondence entry point *)
 Inductive tobs := OErr (st : tstate) (c : N) | OLines (ls : list (list N)).
@@ -489,16 +723,16 @@ Definition tmpl_check (c : tmpl_case) : bool :=
    | None => true
    | Some t => list_eqb N.eqb (print t) s
    end) &&
-  match parse s, obs with
-  | PErr st ch, OErr st' ch' =>
+  match parse_full s, obs with
+  | PRes (PErr st ch), OErr st' ch' =>
       tstate_eqb st st' && (ch =? ch') &&
       match ast with None => true | Some t => negb (wf t) end
-  | POk ps, OLines ls =>
+  | PRes (POk ps), OLines ls =>
       keys_covered env ps &&
-      lines_eqb (map squeeze (render_parts (expand_exec env styles) tw ps)) ls &&
+      lines_eqb (map squeeze (fmt_render env styles tw ps)) ls &&
       match ast with
       | None => true
       | Some t => wf t && lines_eqb (map squeeze (render_spec (expand_exec env styles) tw t)) ls
       end
-  | _, _ => false
+  | _, _ => false          (* in particular [PPanic _]: the harness never hands over a panic *)
   end.
